@@ -2610,15 +2610,33 @@ impl<'a, R: FileManager> FrontendCtx<'a, R> {
         anchor: &Anchor,
     ) -> Res<Runtype> {
         let mut vs = vec![];
+        self.collect_whole_file_values(bff_file_name, anchor, &mut vs, &mut vec![])?;
+        Ok(Runtype::object(vs))
+    }
+
+    // the value exports of a file: its own ones first, then those it passes on with `export *` (an explicit
+    // export shadows a star export of the same name; `visited` cuts export-star cycles)
+    fn collect_whole_file_values(
+        &mut self,
+        bff_file_name: &BffFileName,
+        anchor: &Anchor,
+        vs: &mut Vec<(String, Optionality<Runtype>)>,
+        visited: &mut Vec<BffFileName>,
+    ) -> Res<()> {
+        if visited.contains(bff_file_name) {
+            return Ok(());
+        }
+        visited.push(bff_file_name.clone());
         let module = self.get_or_fetch_file(bff_file_name, anchor)?;
         // the export tables are hash maps: visit them by name, so that the first error reported (and
         // the order in which nested types are discovered) does not depend on the hash seed
         let mut named_values: Vec<_> = module.symbol_exports.named_values.iter().collect();
         named_values.sort_by(|a, b| a.0.cmp(b.0));
+        let mut own = vec![];
         for (name, sym) in named_values {
             let v = self.extract_sym_export_as_value(sym, anchor)?;
             if let Some(v) = v {
-                vs.push((name.clone(), v.required()));
+                own.push((name.clone(), v.required()));
             }
         }
         let mut named_unknown: Vec<_> = module.symbol_exports.named_unknown.iter().collect();
@@ -2626,11 +2644,18 @@ impl<'a, R: FileManager> FrontendCtx<'a, R> {
         for (name, sym) in named_unknown {
             let v = self.extract_sym_export_as_value(sym, anchor)?;
             if let Some(v) = v {
-                vs.push((name.clone(), v.required()));
+                own.push((name.clone(), v.required()));
             }
         }
-
-        Ok(Runtype::object(vs))
+        for (name, v) in own {
+            if !vs.iter().any(|(n, _)| *n == name) {
+                vs.push((name, v));
+            }
+        }
+        for star in module.symbol_exports.extends.clone() {
+            self.collect_whole_file_values(&star, anchor, vs, visited)?;
+        }
+        Ok(())
     }
 
     fn extract_addressed_value(
